@@ -116,6 +116,17 @@ def make_prog(rng, base=None, opts=None):
                     if w["id"] == v["id"]:
                         w["unexported"] = True; w["ok"] = False
             prog["defect"] += "+value-unexported"
+    # a provider function with an unexported name, declared in the library and listed in a library set only
+    # (C01: the injector's package cannot call it)
+    if rng.random() < opts.get("unexp_prov_p", 0.06):
+        rootish = {q["id"] for x in spec.all_sets(tree) if x["pkg"] == 0 for q in x["providers"]}
+        cands = sorted({q["id"] for x in spec.all_sets(tree) if x["pkg"] == 1 for q in x["providers"] if not q["struct"] and q["pkg"] == 1 and q["id"] not in rootish})
+        if cands:
+            pick = rng.choice(cands)
+            for q in allp:
+                if q["id"] == pick:
+                    q["unexp"] = True
+            prog["defect"] += "+provider-unexported"
     # field-name literal spellings (C12): wrong case, unknown name, raw string, prevented field
     sps = [p for p in allp if p["struct"] and p["fields"]]
     if sps and rng.random() < opts.get("lit_p", 0.06):
@@ -383,6 +394,10 @@ class Render:
             return "nil"
         return "%s%s{}" % (q, self.tn(t // 2))
 
+    @staticmethod
+    def pname(pr):
+        return ("p%d" if pr.get("unexp") else "P%d") % pr["id"]
+
     def provider_src(self, pr):
         pkg = pr["pkg"]
         name = "P%d" % pr["id"]
@@ -408,7 +423,7 @@ class Render:
         if pr["err"]:
             ok.append("nil")
         body.append("\treturn " + ", ".join(ok))
-        return "func %s(%s) %s {\n%s\n}\n" % (name, params, rs, "\n".join(body))
+        return "func %s(%s) %s {\n%s\n}\n" % (self.pname(pr), params, rs, "\n".join(body))
 
     def item_exprs(self, s, pkg):
         """Marker-call arguments for one set, in Go argument order (interleaved deterministically)."""
@@ -428,7 +443,7 @@ class Render:
                 self.set_lits(pr)
                 out.append("wire.Struct(new(%s)%s)" % (tq, "".join(", " + l for l in pr["_lits"])))
             else:
-                out.append((q if pr["pkg"] == 1 else "") + "P%d" % pr["id"])
+                out.append((q if pr["pkg"] == 1 else "") + self.pname(pr))
         for v in s["values"]:
             t = v["out"]
             if self.types[t // 2]["kind"] == "iface":
